@@ -73,8 +73,8 @@ def run_one(seed, preset=None, tier="quick", want_case=False):
     ft = tape.sub("fault")
     case = gen_case(tape, doc_knobs={"max_ops": 2})
     cfg = pick_engine_cfg(cfgt)
-    # lists beyond 4096 items are expensive (every fault execution repeats them): all thorough runs, a third of the quick ones
-    plan_knobs = {"long_list_pct": 3, "mid_list_pct": 4, "huge_list": tier != "quick" or seed % 3 == 0,
+    # lists beyond 4096 items are expensive (every fault execution repeats them): a third of the runs, and fewer faults then
+    plan_knobs = {"long_list_pct": 3, "mid_list_pct": 4, "huge_list": seed % 3 == 0,
                   "huge_list_crc": seed % 40 == 0}
     base = make_plan(case, tape, knobs=plan_knobs)
     r = base_result(tape)
@@ -93,10 +93,8 @@ def run_one(seed, preset=None, tier="quick", want_case=False):
     very_high = [x for x in sites if any(isinstance(i, int) and i >= 4096 for i in x[0])]
     if very_high:
         high = very_high  # beyond any 2^12 batch
-    if tier == "quick":
-        singles = ft.shuffle(singles)[:12] if len(singles) > 12 else singles
-    else:
-        singles = ft.shuffle(singles)[:150] if len(singles) > 150 else singles
+    cap = 12 if tier == "quick" else (150 if not very_high else 30)
+    singles = ft.shuffle(singles)[:cap] if len(singles) > cap else singles
     fault_sets = [{p: k} for p, k in singles]
     for _ in range(2 if tier == "quick" else 8):
         pair = same_list_fault_pair(base, ft)
